@@ -64,6 +64,13 @@ CASES = [
     ('petl.transform.reshape.itermelt', lambda r: [rect_tables(r, w=3), ('a',), None, 'variable', 'value']),
     ('petl.transform.unpacks.iterunpack', lambda r: [[('a', 'b')] + [(i, r.choice([(1, 2), (3,), (4, 5, 6), ()])) for i in range(r.randint(0, 3))], 'b', r.choice([2, ('x', 'y')]), r.choice([True, False]), 'M']),
     ('petl.util.base.itervalues', lambda r: [small_tables(r), r.choice(['a', ('a', 'b'), 0]), r.choice([None, 'M'])]),
+    ('petl.transform.joins.itercrossjoin', lambda r: [[rect_tables(r, 3), rect_tables(r, 3)], r.choice([False, True])]),
+    ('petl.transform.joins.iterjoin', lambda r: [sorted_rect(r), sorted_rect(r), 'a', 'a', None, r.choice([True, False]), r.choice([True, False])]),
+    ('petl.transform.joins.iterantijoin', lambda r: [sorted_rect(r), sorted_rect(r), 'a', 'a']),
+    ('petl.transform.joins.iterlookupjoin', lambda r: [sorted_rect(r), sorted_rect(r), 'a', 'a', None]),
+    ('petl.transform.dedup.iterduplicates', lambda r: [sorted_rect(r, 3), ('a', 'b')]),
+    ('petl.transform.basics.itercat', lambda r: [[small_tables(r), small_tables(r)], r.choice([None, 'M']), None]),
+    ('petl.transform.basics.iterskipcomments', lambda r: [[('#c',), ('a', 'b')] + rect_tables(r, w=2)[1:], '#']),
     ('petl.comparison.comparable_itemgetter', None),          # handled specially below
 ]
 
@@ -110,7 +117,11 @@ def run_engine(root, qn, args):
     fn = closure_of(it, qn)
     try:
         local = it.bind_args(fn, [to_engine(a) for a in args], {})
-        it.run_body(fn, Env(local, fn.env))
+        ret = it.run_body(fn, Env(local, fn.env))
+        if ret is not None and not outs:
+            # not a generator function: it returned an iterator (e.g. a generator expression): drain that
+            from pyvc import builtins as bi
+            outs = list(bi.iter_concrete(it, ret))
         if ctx.alternatives:
             return ('skip', 'the engine forked on a concrete input')
         return ('ok', [from_engine(o) for o in outs])
